@@ -6,6 +6,7 @@ import (
 	"fmt"
 	"go/types"
 	"regexp"
+	"strconv"
 	"strings"
 
 	"golang.org/x/tools/go/ssa"
@@ -63,12 +64,16 @@ func patternMatches(pat CallPattern, kind, callee string, pkgShort string) bool 
 	if pat.Callee == callee || pat.Callee == "*" {
 		return true
 	}
+	// instances of generic functions are matched by their origin: client.sendCh[sts.Polled] ~ sendCh
+	if i := strings.Index(callee, "["); i > 0 && strings.HasSuffix(callee, "]") && !strings.Contains(pat.Callee, "[") {
+		return patternMatches(pat, kind, callee[:i], pkgShort)
+	}
 	// unqualified names of the contract's package
 	if qualifyShort(pat.Callee, pkgShort) == callee {
 		return true
 	}
 	// dynamic calls may be written without the dyn: prefix
-	if "dyn:"+pat.Callee == callee || "map:"+pat.Callee == callee {
+	if "dyn:"+pat.Callee == callee || "map:"+pat.Callee == callee || "store:"+pat.Callee == callee {
 		return true
 	}
 	// library names may be written with the last path element only: filepath.Join for path/filepath.Join
@@ -659,17 +664,17 @@ func shortLib(name string) string { return libPathRe.ReplaceAllString(name, "") 
 // function under verification; names resolve lexically through the enclosing frames.
 func (x *Exec) doCallback(st *State, fr *Frame, fc *FuncContract, callee string, fn *ssa.Function, sig *types.Signature, args []Val, resTypes []types.Type, retTo ssa.Value, ev int, at ssa.Instruction, kind string) bool {
 	idx := -1
-	if fn != nil {
+	if n, err := strconv.Atoi(fc.Callback); err == nil {
+		// by position among the declared parameters (interface methods often leave them unnamed)
+		idx = n + len(args) - sig.Params().Len()
+	} else if fn != nil {
 		for i, p := range fn.Params {
 			if p.Name() == fc.Callback {
 				idx = i
 			}
 		}
 	} else {
-		off := 0
-		if sig.Recv() != nil {
-			off = 1
-		}
+		off := len(args) - sig.Params().Len() // 1 for method calls and interface invokes
 		for i := 0; i < sig.Params().Len(); i++ {
 			if sig.Params().At(i).Name() == fc.Callback {
 				idx = i + off
